@@ -26,7 +26,7 @@ NormAcct(a) ==
    o2   |-> [o \in DOMAIN a.o2 |-> [st |-> a.o2[o].st, exp |-> a.o2[o].exp, iat |-> a.o2[o].iat, parent |-> a.o2[o].parent]]]
 
 Events == {"login", "apply", "apiissue", "apidestroy", "revoke", "cred", "setvalid",
-           "keyrotate", "keyrevoke", "delete", "tick", "o2grant", "other"}
+           "keyrotate", "keyrevoke", "delete", "tick", "o2grant", "o2refresh", "other"}
 
 \* ---- L1 on one line
 C36Bad(r) == {x \in DOMAIN cur.accts \cap DOMAIN r.st.accts : ~L1CredRemoval(cur.accts[x], r.st.accts[x])}
@@ -34,7 +34,7 @@ C36Bad(r) == {x \in DOMAIN cur.accts \cap DOMAIN r.st.accts : ~L1CredRemoval(cur
 \* ---- L2: expected account state after an event that reported success
 Expected(r, a) ==
   CASE r.a = "apply"      -> DoApply(a, r.s, r.exp, r.cred, r.t)
-    [] r.a = "revoke"     -> DoRevoke(a, r.s, r.t)
+    [] r.a = "revoke"     -> IF r.s \in DOMAIN a.sess THEN DoRevoke(a, r.s, r.t) ELSE a   \* no record: nothing is modified
     [] r.a = "cred"       -> DoSetCreds(a, r.st.accts[r.acct].creds, r.t)
     [] r.a = "setvalid"   -> DoSetValid(a, r.vf, r.ex, r.t)
     [] r.a = "apiissue"   -> DoApiAdd(a, r.s, r.exp, r.t)
@@ -42,7 +42,7 @@ Expected(r, a) ==
     [] OTHER              -> a
 
 L2State(r) ==
-  IF r.a = "o2grant" \/ r.a = "other" THEN TRUE      \* not transcribed
+  IF r.a \in {"o2grant", "o2refresh", "other"} THEN TRUE      \* not transcribed
   ELSE IF r.a = "delete" /\ r.res = "ok"
   THEN DOMAIN r.st.accts = DOMAIN cur.accts \ {r.acct}
        /\ \A x \in DOMAIN r.st.accts : NormAcct(r.st.accts[x]) = NormAcct(cur.accts[x])
